@@ -89,6 +89,18 @@ pub fn exec(sim: &mut Sim, ev: &str, a: &Value) -> Result<(), String> {
                 return Err("no event message".into());
             }
         }
+        "DropEvS" => {
+            let ch = sim.sev_ch(s(a, "t"));
+            if !sim.drop_s2c(s(a, "c"), ch, a["pos"].as_u64().unwrap_or(0) as usize) {
+                return Err("no event message".into());
+            }
+        }
+        "DropEvC" => {
+            let ch = sim.cev_ch(s(a, "t"));
+            if !sim.drop_c2s(s(a, "c"), ch, a["pos"].as_u64().unwrap_or(0) as usize) {
+                return Err("no event message".into());
+            }
+        }
         "DeliverEvC" => {
             let ch = sim.cev_ch(s(a, "t"));
             if !sim.deliver_c2s(s(a, "c"), ch, a["pos"].as_u64().unwrap_or(0) as usize) {
@@ -330,14 +342,38 @@ pub fn current_parents(sim: &Sim) -> std::collections::BTreeMap<String, String> 
     m
 }
 
-/// F17's trigger: despawning `p` while a living entity that had `p` as relation target at the last
-/// tick has been detached or re-attached since (the client still knows it as a child of `p`).
-pub fn f17_trigger(sim: &Sim, parent_at_tick: &std::collections::BTreeMap<String, String>, p: &str) -> bool {
+/// F17's trigger: despawning `p` (and with it everything below it) while some living entity outside that
+/// subtree has had an entity of the subtree as relation target since the last fully acknowledged state -
+/// a client may still know it as a child (the re-attachment travels as a mutation and can be late or lost).
+pub fn f17_trigger(
+    sim: &Sim,
+    ever_parent: &std::collections::BTreeMap<String, std::collections::BTreeSet<String>>,
+    p: &str,
+) -> bool {
     let now = current_parents(sim);
     let w = sim.project_server();
-    parent_at_tick.iter().any(|(c, old)| {
-        old == p && now.get(c).map(String::as_str) != Some(p) && w["world"][c]["alive"] == json!(true)
+    let below = |x: &str| {
+        let mut cur = Some(x.to_string());
+        while let Some(y) = cur {
+            if y == p {
+                return true;
+            }
+            cur = now.get(&y).cloned();
+        }
+        false
+    };
+    ever_parent.iter().any(|(c, olds)| {
+        w["world"][c]["alive"] == json!(true) && !below(c) && olds.iter().any(|o| below(o))
     })
+}
+
+fn note_parents(sim: &Sim, ever: &mut std::collections::BTreeMap<String, std::collections::BTreeSet<String>>, reset: bool) {
+    if reset {
+        ever.clear();
+    }
+    for (c, p) in current_parents(sim) {
+        ever.entry(c).or_default().insert(p);
+    }
 }
 
 /// One random run; returns the number of steps recorded.
@@ -361,7 +397,7 @@ pub fn random_run<W: Write>(tr: &mut Trace<W>, cfg: Cfg, prof: &Profile, seed: u
         }
     }
     let mut next_id: u32 = 0;
-    let mut parent_at_tick: std::collections::BTreeMap<String, String> = Default::default();
+    let mut ever_parent: std::collections::BTreeMap<String, std::collections::BTreeSet<String>> = Default::default();
     for _ in 0..prof.steps {
         if prof.events && rng.chance(1, 3) {
             // event traffic
@@ -407,6 +443,37 @@ pub fn random_run<W: Write>(tr: &mut Trace<W>, cfg: Cfg, prof: &Profile, seed: u
                 tr.step(&mut sim, "CliFrame", json!({"c": c, "dt": 0}));
                 continue;
             }
+            if rng.chance(1, 10) {
+                // unreliable channels: several events pile up, arrive out of order, one is lost
+                let server_side = rng.chance(1, 2);
+                for _ in 0..3 {
+                    if server_side {
+                        tr.step(&mut sim, "EmitS", json!({"t": "SUnr", "id": next_id, "mode": "all", "to": "none", "e": "none"}));
+                        tr.step(&mut sim, "SrvFrame", json!({"tick": true, "dt": 0}));
+                    } else {
+                        tr.step(&mut sim, "EmitC", json!({"c": c, "t": "CUnr", "id": next_id, "e": "none"}));
+                        tr.step(&mut sim, "CliFrame", json!({"c": c, "dt": 0}));
+                    }
+                    next_id += 1;
+                }
+                let (del, drop, t, dir, ch) = if server_side {
+                    ("DeliverEvS", "DropEvS", "SUnr", "s2c", sim.sev_ch("SUnr"))
+                } else {
+                    ("DeliverEvC", "DropEvC", "CUnr", "c2s", sim.cev_ch("CUnr"))
+                };
+                let mut lost = false;
+                while sim.channel_len(&c, dir, ch) > 0 {
+                    let n = sim.channel_len(&c, dir, ch);
+                    let pos = if rng.chance(2, 3) { n - 1 } else { rng.below(n) };
+                    let ev = if !lost && rng.chance(1, 3) { lost = true; drop } else { del };
+                    tr.step(&mut sim, ev, json!({"c": c, "t": t, "pos": pos}));
+                    if rng.chance(1, 3) {
+                        let frame = if server_side { json!({"c": c, "dt": 0}) } else { json!({"tick": false, "dt": 0}) };
+                        tr.step(&mut sim, if server_side { "CliFrame" } else { "SrvFrame" }, frame);
+                    }
+                }
+                continue;
+            }
             match rng.below(10) {
                 0..=3 => {
                     let t = *rng.pick(&crate::events::SEV);
@@ -415,21 +482,36 @@ pub fn random_run<W: Write>(tr: &mut Trace<W>, cfg: Cfg, prof: &Profile, seed: u
                         2 => ("except", c.clone()),
                         _ => ("direct", c.clone()),
                     };
-                    let e = if t == "SMap" && e == "none" { ents[0].clone() } else if t == "SOrd" || t == "SInd" { "none".into() } else { e };
+                    let e = if t == "SMap" && e == "none" { ents[0].clone() } else if t == "SOrd" || t == "SInd" || t == "SUnr" { "none".into() } else { e };
                     tr.step(&mut sim, "EmitS", json!({"t": t, "id": next_id, "mode": mode, "to": to, "e": e}));
                 }
                 4..=5 => {
                     let t = *rng.pick(&crate::events::CEV);
-                    let e = if t == "CMap" && e == "none" { ents[0].clone() } else if t == "COrd" { "none".into() } else { e };
+                    let e = if t == "CMap" && e == "none" { ents[0].clone() } else if t == "COrd" || t == "CUnr" { "none".into() } else { e };
                     tr.step(&mut sim, "EmitC", json!({"c": c, "t": t, "id": next_id, "e": e}));
                 }
                 6..=7 => {
                     let t = *rng.pick(&crate::events::SEV);
-                    tr.step(&mut sim, "DeliverEvS", json!({"c": c, "t": t, "pos": 0}));
+                    // an unreliable channel delivers in any order and may lose messages
+                    let n = sim.channel_len(&c, "s2c", sim.sev_ch(t));
+                    if t == "SUnr" && n > 0 {
+                        let pos = rng.below(n);
+                        let ev = if rng.chance(1, 4) { "DropEvS" } else { "DeliverEvS" };
+                        tr.step(&mut sim, ev, json!({"c": c, "t": t, "pos": pos}));
+                    } else {
+                        tr.step(&mut sim, "DeliverEvS", json!({"c": c, "t": t, "pos": 0}));
+                    }
                 }
                 8 => {
                     let t = *rng.pick(&crate::events::CEV);
-                    tr.step(&mut sim, "DeliverEvC", json!({"c": c, "t": t, "pos": 0}));
+                    let n = sim.channel_len(&c, "c2s", sim.cev_ch(t));
+                    if t == "CUnr" && n > 0 {
+                        let pos = rng.below(n);
+                        let ev = if rng.chance(1, 4) { "DropEvC" } else { "DeliverEvC" };
+                        tr.step(&mut sim, ev, json!({"c": c, "t": t, "pos": pos}));
+                    } else {
+                        tr.step(&mut sim, "DeliverEvC", json!({"c": c, "t": t, "pos": 0}));
+                    }
                 }
                 _ => {
                     if sim.cfg.auth == "custom" {
@@ -471,7 +553,9 @@ pub fn random_run<W: Write>(tr: &mut Trace<W>, cfg: Cfg, prof: &Profile, seed: u
         if rng.chance(1, 14) {
             // acknowledged state in the middle of the run, then the history goes on
             tr.sync(&mut sim);
-            parent_at_tick = current_parents(&sim);
+            if prof.rel {
+                note_parents(&sim, &mut ever_parent, true);
+            }
             continue;
         }
         let e = rng.pick(&ents).clone();
@@ -493,7 +577,7 @@ pub fn random_run<W: Write>(tr: &mut Trace<W>, cfg: Cfg, prof: &Profile, seed: u
             8..=11 => {
                 // clean relation profile: avoid the trigger of known finding F17 (an entity that was the
                 // relation target of a still living entity at the last tick, but is not any more)
-                if prof.rel && prof.clean && f17_trigger(&sim, &parent_at_tick, &e) {
+                if prof.rel && prof.clean && f17_trigger(&sim, &ever_parent, &e) {
                     continue;
                 }
                 ("Despawn", json!({"e": e}))
@@ -580,8 +664,9 @@ pub fn random_run<W: Write>(tr: &mut Trace<W>, cfg: Cfg, prof: &Profile, seed: u
         };
         let ticked = ev == "SrvFrame" && args["tick"] == json!(true);
         tr.step(&mut sim, ev, args);
-        if ticked {
-            parent_at_tick = current_parents(&sim);
+        let _ = ticked;
+        if prof.rel && matches!(ev, "Relate" | "Spawn") {
+            note_parents(&sim, &mut ever_parent, false);
         }
         if sim.server_panicked || sim.clients.iter().any(|c| c.panicked) {
             break;
